@@ -19,12 +19,12 @@ P == Scens[sid]
 
 Sampled(Q, s) ==
   [peak  |-> [h \in Hosts(Q) |-> PeakSpeed(Q, s, h)],
-   scale |-> [h \in Hosts(Q) |-> Scale(Q, s, h)],
-   hon   |-> [h \in Hosts(Q) |-> HostOn(Q, s, h)],
+   scale |-> [h \in Hosts(Q) |-> ScaleSeen(Q, s, h)],
+   hon   |-> [h \in Hosts(Q) |-> HostOnSeen(Q, s, h)],
    pst   |-> [h \in Hosts(Q) |-> s.pst[h]],
-   bw    |-> [l \in Links(Q) |-> Bw(Q, s, l)],
-   lat   |-> [l \in Links(Q) |-> Lat(Q, s, l)],
-   lon   |-> [l \in Links(Q) |-> LinkOn(Q, s, l)]]
+   bw    |-> [l \in Links(Q) |-> BwSeen(Q, s, l)],
+   lat   |-> [l \in Links(Q) |-> LatSeen(Q, s, l)],
+   lon   |-> [l \in Links(Q) |-> LinkOnSeen(Q, s, l)]]
 
 \* pre: state right after the clock moved; post: settled state at the same date; old: settled state before the step
 ObsOf(Q, old, pre, post) ==
